@@ -11,7 +11,7 @@ from vk.driver import Ob
 META = {
     "level": "other",
     "technique": "AST->z3 regular-language equivalence for the selector filters (unbounded length); bounded symbolic execution (CrossHair/z3) of every handler class over an access-logging in-memory VFS with recording escape hatches, of handler selection, of the URL-protocol decoders with a tagging codec stub, and of content-derived selectors",
-    "claim": "The selector filter's accepted language is shown (any length) to be exactly the strings without the six forbidden substrings, hence without "
+    "claim": "The selector filter's accepted language is shown (any length) to be exactly the strings without the six forbidden substrings and without a trailing '/.' component, hence without "
     "a dot-dot component or NUL and closed under substrings. Each handler class of the shipped and the full list is then executed symbolically on "
     "bounded selectors over an in-memory VFS that logs every access: a handler accepts only filtered selectors, and every non-stat access and every "
     "path handed to zipfile/mailbox/import/subprocess is an absolute path lexically inside the root. The URL protocols hand exactly one "
